@@ -208,6 +208,12 @@ Fixpoint runS (sc : schema) (maxsize : N) (h : list batch) (s : store) : store *
               let '(s'', os) := runS sc maxsize r s' in (s'', o :: os)
   end.
 
+(* number of node ids a batch / a history may allocate *)
+Definition batch_points (b : batch) : N :=
+  match b with BInsert ps => N.of_nat (length ps) | _ => 0 end.
+Fixpoint hist_points (h : list batch) : N :=
+  match h with [] => 0 | b :: r => batch_points b + hist_points r end.
+
 (* ============================ abstraction ================================= *)
 
 (* read the p<uuid>i keys back and fetch n<nid>d *)
@@ -366,6 +372,22 @@ Definition dump_inv_b (d : dump) : bool :=
   && (N.of_nat (length fl) + N.of_nat (length live) =? nf - first_node_id)
   (* pointCount = number of live points *)
   && (dump_count d =? N.of_nat (length pts)).
+
+(* Prop form of dump_inv_b on the decoded dump *)
+Record DumpInv (d : dump) : Prop := {
+  di_bij : forall u n, In (u, n) (dump_pts d) <-> In (n, u) (dump_nodes d);   (* two-way index *)
+  di_pts_nodup : NoDup (map fst (dump_pts d));                                 (* one entry per uuid *)
+  di_live_nodup : NoDup (dump_live d);                                         (* node ids of live points are unique *)
+  di_data : forall n, In n (dump_live d) <-> In n (map fst (dump_datas d));    (* data key iff live *)
+  di_live_range : forall n, In n (dump_live d) ->
+                  first_node_id <= n < dump_nextfree d /\ n <> 0 /\ n <> start_id;
+  di_free_nodup : NoDup (dump_free d);
+  di_free : forall n, In n (dump_free d) ->
+            first_node_id <= n < dump_nextfree d /\ ~ In n (dump_live d);       (* free ids are not live *)
+  di_cover : forall n, first_node_id <= n < dump_nextfree d ->
+             In n (dump_free d) \/ In n (dump_live d);                         (* free + live = [2, nextFree) *)
+  di_count : dump_count d = N.of_nat (length (dump_live d))
+}.
 
 (* the store the dump represents *)
 Definition dump_abs (d : dump) : store :=
